@@ -78,6 +78,7 @@ V("C08", "flag reads unpermuted letters", "R08.4", (SYM, "wyckoff_letters = set(
 V("C09", "no wrapping", "R09.1", (GEO, "    system = system.copy()\n    system.wrap()\n    system_1x = system", "    system = system.copy()\n    system_1x = system"))
 V("C09", "twin: wrap=True getter", "silent", (GEO, "    system = system.copy()\n    system.wrap()\n    system_1x = system\n", "    system = system.copy()\n    system.wrap()\n    system_1x = system\n    system_1x = system\n"))
 V("C09", "cutoff with one radius", "R09.2", (GEO, "cutoff = cluster_threshold + 2 * max_radii", "cutoff = cluster_threshold + max_radii"))
+V("C09", "cutoff from the module default instead of the argument", "R09.2", (GEO, "cutoff = cluster_threshold + 2 * max_radii", "cutoff = CLUSTER_THRESHOLD + 2 * max_radii"))
 V("C09", "twin: generous cutoff", "silent", (GEO, "cutoff = cluster_threshold + 2 * max_radii", "cutoff = 1.5 * cluster_threshold + 2.5 * max_radii"))
 V("C09", "clip bound below eps", "R09.2", (GEO, "a_max=1.1 * threshold", "a_max=0.9 * threshold"))
 V("C09", "2x uses another cutoff", "R09.3", (GEO, "                pbc,\n                cutoff=cutoff,\n                return_distances=True,\n            )\n            radii_2x",
@@ -87,6 +88,8 @@ V("C09", "2x clustering with min_samples 2", "R09.3", (GEO, "dist_matrix_radii_m
 V("C09", "natural log in the rank formula", "R09.3", (GEO, "math.log(n_clusters_2x, 2)", "math.log(n_clusters_2x)"))
 
 # ------------------------------------------------------------------------------------------ C13
+V("C13", "radii looked up by species in the shortcut", "R13.2", (CLU, 'kwargs["radii"] = np.asarray(self._radii)[self.indices]', 'zs = self._system.get_atomic_numbers()\n                by_z = dict(zip(zs, np.asarray(self._radii)))\n                kwargs["radii"] = np.array([by_z[z] for z in zs[self.indices]])'))
+V("C13", "twin: radii slice through a local", "silent", (CLU, 'kwargs["radii"] = np.asarray(self._radii)[self.indices]', 'all_radii = np.asarray(self._radii)\n                kwargs["radii"] = all_radii[self.indices]'))
 V("C13", "setter forgets the matrix cache", "R13.1", (CLU, "        self._indices = indices\n        self._distance_matrix_radii_mic = None\n", "        self._indices = indices\n"))
 V("C13", "bypass the setter", "R13.1", (SBC, "cluster.indices = np.array(cluster.indices)[largest_indices].tolist()", "cluster._indices = np.array(cluster.indices)[largest_indices].tolist()"))
 V("C13", "twin: site reset instead of setter", "silent",
@@ -112,11 +115,19 @@ V("C15", "database queried with a constant hall number", "R15.3", (SYM, "rotatio
 V("C15", "memo not cleared by reset", "R15.4", (SYM, "        self._best_transform = None\n\n    def get_material_id", "\n    def get_material_id"))
 V("C15", "twin: rounded equality", "silent", (SYM, "if determinant < 0:", "if round(determinant) == -1:"))
 V("C15", "twin: isclose", "silent", (SYM, "if determinant < 0:", "if np.isclose(determinant, -1):"))
+V("C15", "twin: vectorised determinant test over all database rotations", "silent", (SYM, '        chiral = True\n        for rotation in rotations:\n            determinant = np.linalg.det(rotation)\n            if determinant < 0:\n                return False\n\n        return chiral', "        return bool(np.all(np.linalg.det(rotations) > 0))"))
+V("C15", "twin: vectorised not-any-improper", "silent", (SYM, '        chiral = True\n        for rotation in rotations:\n            determinant = np.linalg.det(rotation)\n            if determinant < 0:\n                return False\n\n        return chiral', "        dets = np.linalg.det(rotations)\n        return not np.any(dets < 0)"))
+V("C15", "vectorised test on the zero-translation operations only", "R15.2", (SYM, '        chiral = True\n        for rotation in rotations:\n            determinant = np.linalg.det(rotation)\n            if determinant < 0:\n                return False\n\n        return chiral', "        rotations = rotations[:48]\n        return bool(np.all(np.linalg.det(rotations) > 0))"))
+V("C15", "vectorised any-proper", "R15.2", (SYM, '        chiral = True\n        for rotation in rotations:\n            determinant = np.linalg.det(rotation)\n            if determinant < 0:\n                return False\n\n        return chiral', "        return bool(np.any(np.linalg.det(rotations) > 0))"))
 V("C15", "polarity inverted", "R15.2", (SYM, "if determinant < 0:", "if determinant > 0:"))
 V("C15", "first rotation skipped", "R15.2", (SYM, "        for rotation in rotations:\n            determinant = np.linalg.det(rotation)", "        for rotation in rotations[1:]:\n            determinant = np.linalg.det(rotation)"))
 V("C15", "threshold outside (-1, 1)", "R15.2", (SYM, "if determinant < 0:", "if determinant < -1:"))
 
 # ------------------------------------------------------------------------------------------ C19
+V("C19", "classifier ignores its radii for the distance matrix (D14 regression)", "R19.8", (CLS, "matid.geometry.get_distances(system, self.radii)", "matid.geometry.get_distances(system)"))
+V("C19", "classifier dimensionality with default radii (D14 regression)", "R19.8", (CLS, "            radii=self.radii,\n        )\n", "        )\n"))
+V("C19", "fallback table one element short", "R19.2", (GEO, "for i in range(len(vdw_radii))", "for i in range(len(vdw_radii) - 1)"))
+V("C19", "twin: fallback table over range(0, len)", "silent", (GEO, "for i in range(len(vdw_radii))", "for i in range(0, len(vdw_radii))"))
 V("C19", "nan comparison again", "R19.1", (GEO, "vdw_radii[i] if not np.isnan(vdw_radii[i]) else covalent_radii[i]", "vdw_radii[i] if vdw_radii[i] != np.nan else covalent_radii[i]"))
 V("C19", "fallback polarity inverted", "R19.1", (GEO, "vdw_radii[i] if not np.isnan(vdw_radii[i]) else covalent_radii[i]", "vdw_radii[i] if np.isnan(vdw_radii[i]) else covalent_radii[i]"))
 V("C19", "twin: x != x idiom", "silent", (GEO, "vdw_radii[i] if not np.isnan(vdw_radii[i]) else covalent_radii[i]", "covalent_radii[i] if vdw_radii[i] != vdw_radii[i] else vdw_radii[i]"))
@@ -126,6 +137,9 @@ V("C19", "custom array rescaled", "R19.3", (GEO, "        radii = radii[atomic_n
 V("C19", "consumer inspects the preset", "R19.4", (GEO, "    radii_1x = get_radii(radii, num_1x)\n", "    radii_1x = get_radii(radii, num_1x)\n    if isinstance(radii, str) and radii == \"vdw\":\n        cluster_threshold = cluster_threshold * 1.0\n"))
 
 # ------------------------------------------------------------------------------------------ C20
+V("C20", "centre of mass folded into the cell in all directions", "R20.5", (GEO, "com_cart = to_cartesian(cell, rel_com)[0, :]", "com_cart = to_cartesian(cell, rel_com, wrap=True, pbc=True)[0, :]"))
+V("C20", "twin: centre of mass folded along the periodic directions only", "silent", (GEO, "com_cart = to_cartesian(cell, rel_com)[0, :]", "com_cart = to_cartesian(cell, rel_com, wrap=True, pbc=pbc)[0, :]"))
+V("C20", "extent from the orthogonal projection", "R20.4", (GEO, "    c_size = np.linalg.norm(c_real_cart)\n", "    heights = np.dot(system.get_positions(), c_norm)\n    c_size = heights.max() - heights.min()\n"))
 V("C20", "arity slip again", "R20.1", (GEO, "centroid = get_center_of_mass(system)", "centroid = get_center_of_mass(system, weight)"))
 V("C20", "wrap all components", "R20.2", (GEO, "        for i, periodic in enumerate(pbc):\n            if periodic:\n                fractional[:, i] %= 1.0", "        for i, periodic in enumerate(pbc):\n            fractional[:, i] %= 1.0"))
 V("C20", "wrap ignores the flag", "R20.2", (GEO, "    pbc = expand_pbc(pbc)\n    if wrap:\n        for i, periodic in enumerate(pbc):\n            if periodic:\n                scaled_positions[:, i] %= 1.0",
@@ -141,11 +155,16 @@ V("C20", "to_cartesian transposed", "R20.5", (GEO, "cartesian_positions = np.dot
 V("C20", "complete_cell not normalised", "R20.6", (GEO, "    c_norm = c / np.linalg.norm(c)\n    c_norm = c_norm[None, :]", "    c_norm = c\n    c_norm = c_norm[None, :]"))
 
 # ------------------------------------------------------------------------------------------ C17
+V("C17", "absolute tolerances assigned only inside the relative branch (D13 regression)", "R17.5",
+  (CLS, "        # Absolute tolerances are used as given\n        if self.pos_tol_mode == \"absolute\":\n            self.abs_pos_tol = self.pos_tol\n", "        if self.pos_tol_mode == \"absolute\" and self.delaunay_threshold_mode == \"relative\":\n            self.abs_pos_tol = self.pos_tol\n"))
+V("C17", "twin: absolute tolerance assigned before the statistics block", "silent",
+  (CLS, "        # Absolute tolerances are used as given\n        if self.pos_tol_mode == \"absolute\":\n            self.abs_pos_tol = self.pos_tol\n", "        # Absolute tolerances are used as given\n        if self.pos_tol_mode != \"relative\":\n            self.abs_pos_tol = self.pos_tol\n"))
+V("C17", "single atom classified before the dimensionality", "R17.1", (CLS, "        n_atoms = len(system)\n\n        # Calculate the displacement tensor", "        n_atoms = len(system)\n        if n_atoms == 1:\n            return Atom(input_system)\n\n        # Calculate the displacement tensor"))
 V("C17", "Class3D for dimensionality 1", "R17.1", (CLS, "        elif dimensionality == 1:\n            classification = Class1D(input_system)", "        elif dimensionality == 1:\n            classification = Class3D(input_system)"))
 V("C17", "dimensionality 3 falls through to None", "R17.1", (CLS, "        elif dimensionality == 3:\n            classification = Class3D(input_system)", "        elif dimensionality == 4:\n            classification = Class3D(input_system)"))
 V("C17", "Unknown branch dropped", "R17.1", (CLS, "        if dimensionality is None:\n            return Unknown(input_system)\n", "        if dimensionality is None:\n            pass\n"))
 V("C17", "Atom for two atoms", "R17.1", (CLS, "            if n_atoms == 1:\n                classification = Atom(input_system)", "            if n_atoms <= 2:\n                classification = Atom(input_system)"))
-V("C17", "dimensionality of the unwrapped input", "R17.1", (CLS, "            system, self.cluster_threshold, distances.dist_matrix_radii_mic", "            input_system, self.cluster_threshold, distances.dist_matrix_radii_mic"))
+V("C17", "dimensionality of the unwrapped input", "R17.1", (CLS, "            system,\n            self.cluster_threshold,\n            distances.dist_matrix_radii_mic,", "            input_system,\n            self.cluster_threshold,\n            distances.dist_matrix_radii_mic,"))
 V("C17", "coverage test dropped", "R17.2", (CLS, "                if covered and region_is_periodic:", "                if region_is_periodic:"))
 V("C17", "periodicity test dropped", "R17.2", (CLS, "                if covered and region_is_periodic:", "                if covered:"))
 V("C17", "coverage against a constant", "R17.2", (CLS, "covered = coverage >= self.min_coverage", "covered = coverage >= 0.5"))
@@ -158,8 +177,8 @@ V("C17", "wrap the input in place", "R17.4", (CLS, "        system = input_syste
 V("C17", "classification carries the working copy", "R17.4", (CLS, "classification = Class3D(input_system)", "classification = Class3D(system)"))
 V("C17", "random seed order", "R17.5", (CLS, "                indices = np.argsort(dist)", "                indices = np.random.permutation(len(dist))"))
 V("C17", "state not initialised", "R17.5", (CLS, "        self.abs_pos_tol = None\n", ""))
-V("C17", "matrix with vdw radii, dimensionality with default", "R17.6", (CLS, "distances = matid.geometry.get_distances(system)", "distances = matid.geometry.get_distances(system, \"vdw\")"))
-V("C17", "cluster_threshold ignored", "R17.6", (CLS, "            system, self.cluster_threshold, distances.dist_matrix_radii_mic", "            system, 3.5, distances.dist_matrix_radii_mic"))
+V("C17", "matrix with vdw radii, dimensionality with default", "R17.6", (CLS, "distances = matid.geometry.get_distances(system, self.radii)", "distances = matid.geometry.get_distances(system, \"vdw\")"))
+V("C17", "cluster_threshold ignored", "R17.6", (CLS, "            self.cluster_threshold,\n            distances.dist_matrix_radii_mic,", "            3.5,\n            distances.dist_matrix_radii_mic,"))
 V("C17", "twin: explicit else for 3D", "silent", (CLS, "        elif dimensionality == 3:\n            classification = Class3D(input_system)", "        else:\n            classification = Class3D(input_system)"))
 
 # ------------------------------------------------------------------------------------------ C05
@@ -194,6 +213,9 @@ V("C07", "conventional letters through the original mapping", "R07.4", (SYM, "  
 V("C07", "primitive letters indexed by the raw mapping", "R07.4", (SYM, "            self._spglib_wyckoff_letters_primitive = wyckoff_letters_original[mapping]", "            self._spglib_wyckoff_letters_primitive = wyckoff_letters_original[self.get_symmetry_dataset().mapping_to_primitive]"))
 
 # ------------------------------------------------------------------------------------------ C12
+V("C12", "primitive equivalence memo takes the conventional array", "R12.3", (SYM, "self._primitive_equivalent_atoms = prim_equivalent", "self._primitive_equivalent_atoms = conv_equivalent"))
+V("C12", "letters driven by the permutation table keys", "R12.4", (SYM, "for old_wyckoff in spglib_wyckoffs:", "for old_wyckoff in permutations:"))
+V("C12", "twin: primitive tuple unpacked through a temporary", "silent", (SYM, "        prim_sys, prim_wyckoff, prim_equivalent = self._get_primitive_system(\n            conv_sys, conv_wyckoff, conv_equivalent, space_group_short\n        )", "        result = self._get_primitive_system(\n            conv_sys, conv_wyckoff, conv_equivalent, space_group_short\n        )\n        prim_sys, prim_wyckoff, prim_equivalent = result"))
 V("C12", "sign slip in the A matrix", "R12.1", (SYM, "                    [0, 1 / 2, -1 / 2],\n                    [0, 1 / 2, 1 / 2],", "                    [0, 1 / 2, 1 / 2],\n                    [0, 1 / 2, 1 / 2],"))
 V("C12", "R matrix in reverse setting", "R12.1", (SYM, "                    [2 / 3, -1 / 3, -1 / 3],\n                    [1 / 3, 1 / 3, -2 / 3],", "                    [1 / 3, -2 / 3, 1 / 3],\n                    [2 / 3, -1 / 3, -1 / 3],"))
 V("C12", "twin: another primitive basis of the I lattice", "silent", (SYM, "                    [-1 / 2, 1 / 2, 1 / 2],\n                    [1 / 2, -1 / 2, 1 / 2],\n                    [1 / 2, 1 / 2, -1 / 2],", "                    [1, 0, 1 / 2],\n                    [0, 1, 1 / 2],\n                    [0, 0, 1 / 2],"))
@@ -223,6 +245,8 @@ V("C11", "twin: swap target as literal", "silent", (SYM, "                ideal_
 # ------------------------------------------------------------------------------------------ C10
 CEL = "matid/ext/celllist.cpp"
 GCP = "matid/ext/geometry.cpp"
+V("C10", "minimum image only for fully periodic systems", "R10.5", (GEO, "    if pbc.any():\n        disp_tensor_mic, disp_factors", "    if pbc.all():\n        disp_tensor_mic, disp_factors"))
+V("C10", "twin: np.any for the periodicity dispatch", "silent", (GEO, "    if pbc.any():\n        disp_tensor_mic, disp_factors", "    if np.any(pbc):\n        disp_tensor_mic, disp_factors"))
 V("C10", "factors and distances swapped in the return", "R10.1", (GEO, "    if return_factors:\n        result.append(factors)\n    if return_distances:\n        result.append(dist_mat)",
                                                                 "    if return_distances:\n        result.append(dist_mat)\n    if return_factors:\n        result.append(factors)"))
 V("C10", "distance buffer initialised to zero", "R10.1", (GEO, "dist_mat = np.full((n_atoms, n_atoms), float(\"inf\"))", "dist_mat = np.full((n_atoms, n_atoms), 0.0)"))
@@ -241,6 +265,8 @@ V("C10", "C++: bins smaller than the cutoff", "R10.3", (CEL, "this->dx = max(thi
 V("C10", "C++: infinite cutoff extends by the longest vector of any axis", "R10.4", (GCP, "            if (pbc_u(i)) {\n                vector<double> basis", "            if (true) {\n                vector<double> basis"))
 
 # ------------------------------------------------------------------------------------------ C16
+V("C16", "substitution described backwards", "R16.1", (GEO, "                        atomic_number,\n                        closest_atomic_number,\n                    )", "                        closest_atomic_number,\n                        atomic_number,\n                    )"))
+V("C16", "twin: substitution built with keywords", "silent", (GEO, "                        atomic_number,\n                        closest_atomic_number,\n                    )", "                        substitutional_element=closest_atomic_number,\n                        original_element=atomic_number,\n                    )"))
 V("C16", "other species accepted as a match", "R16.1", (GEO, "                if closest_atomic_number == atomic_number:\n                    match = closest_index\n                    substitution = None\n                else:",
                                                         "                if closest_atomic_number != atomic_number:\n                    match = closest_index\n                    substitution = None\n                else:"))
 V("C16", "tolerance doubled", "R16.1", (GEO, "            if closest_distance <= tolerance:\n                closest_atomic_number = atomic_numbers[closest_index]\n                copy_index = closest_factor",
@@ -292,7 +318,7 @@ V("C05", "twin: block form R x + t", "silent", (SYM, "            n_pos = len(sy
 V("C14", "block form with the translation rotated", "C14.apply", (SYM, "            n_pos = len(system)\n            old_pos = np.empty((n_pos, 4))\n            old_pos[:, 3] = 1\n            old_pos[:, 0:3] = system.get_scaled_positions()\n", "            rotation = best_transformation_matrix[0:3, 0:3]\n            translation = best_transformation_matrix[0:3, 3]\n            old_pos = system.get_scaled_positions()\n"),
   (SYM, "            transformed_positions = np.dot(old_pos, best_transformation_matrix.T)\n\n            # Get rid of the extra dimension of the homogeneous coordinates\n            transformed_positions = transformed_positions[:, 0:3]\n", "            transformed_positions = np.dot(old_pos + translation, rotation.T)\n"))
 V("C17", "tolerance scaled in place", "R17.5", (CLS, "                self.abs_pos_tol = np.array(self.pos_tol) * global_min_dist", "                self.abs_pos_tol = np.asarray(self.pos_tol, dtype=float)\n                self.abs_pos_tol *= global_min_dist"))
-V("C17", "raw distance matrix handed to get_dimensionality", "R17.6", (CLS, "system, self.cluster_threshold, distances.dist_matrix_radii_mic", "system, self.cluster_threshold, distances.dist_matrix_mic"))
+V("C17", "raw distance matrix handed to get_dimensionality", "R17.6", (CLS, "            distances.dist_matrix_radii_mic,\n            radii=self.radii,", "            distances.dist_matrix_mic,\n            radii=self.radii,"))
 V("C19", "whole-structure fallback", "R19.1", (GEO, "            radii = np.array(\n                [\n                    vdw_radii[i] if not np.isnan(vdw_radii[i]) else covalent_radii[i]\n                    for i in range(len(vdw_radii))\n                ]\n            )\n", "            radii = vdw_radii\n            if np.isnan(radii[atomic_numbers]).any():\n                radii = covalent_radii\n"))
 V("C19", "custom array of table length re-indexed", "R19.3", (GEO, "        radii = radii[atomic_numbers]\n    return radii", "        radii = radii[atomic_numbers]\n    elif len(radii) == len(covalent_radii):\n        radii = radii[atomic_numbers]\n    return radii"))
 V("C16", "substitution state carried between positions", "R16.1", (GEO, "        match = None\n        substitution = None\n        copy_index = None\n        displacement = None\n        cell_list_result = cell_list.get_neighbours_for_position(\n            position[0], position[1], position[2]\n        )\n        indices = cell_list_result.indices_original\n        if len(indices) > 0:\n            distances = cell_list_result.distances\n            factors",
